@@ -8,10 +8,10 @@ STATE_KEYS = ["S.pi", "S.pty", "S.tp", "S.ta", "S.ms", "S.ecc", "S.country", "A"
               "T2.cells", "T2.term", "T2.len", "T2.av", "T3.cells", "T3.term", "T3.len", "T3.av", "G"]
 
 class Rec:
-    __slots__ = ("k", "inst", "ret", "evs", "state", "x", "changed")
+    __slots__ = ("k", "inst", "ret", "evs", "state", "x", "changed", "order")
     def __init__(self, k, inst, ret):
         self.k = k; self.inst = inst; self.ret = ret
-        self.evs = []; self.x = []; self.state = None; self.changed = False
+        self.evs = []; self.x = []; self.state = None; self.changed = False; self.order = None
 
 def read_trace(path):
     """yields Rec objects; state is a dict (a fresh copy only when something changed)"""
@@ -39,6 +39,8 @@ def read_trace(path):
                 rec.evs.append(line)
             elif c == "X":
                 rec.x.append(line)
+            elif c == "Q":
+                rec.order = [int(x) for x in line.split()[1:]]
             else:
                 st = dict(rec.state) if rec.state is not None else {}
                 if c == "S":
